@@ -19,7 +19,7 @@ C['C15'] = dict(
  tech="Lean 4 proof over ordered monoids / reals + exact correspondence + exhaustive small-space search")
 C['C16'] = dict(
  text="Lean theorems: alignment_plan model (bit-identical to the code on every configuration with STFT size <= 24/64 and the 512/1024 defaults) covers every bin whenever shift <= width; DHTV and adjacent-bin mappings are exactly the accumulated net reordering (loop invariant, all masks/plans/metrics); identity on consistent masks; the greedy aligner restores ONE class order for every permutation field under adjacent-bin row dominance, which the stated analytic domain (cosine <= 0.1, jitter <= 10 %) implies for the cos metric (jitter lemma); DHTV (cos/multiply, any assignment algorithm, any plan): one pass = per-bin reassignment against the fixed centroid (functional characterisation of the in-place loop), majority inequality, induction over the plan => from a first-segment majority and >= 2/3 overlap of every later segment every processed bin ends in one order and pi_f o mapping[:, f] is constant (dhtv_majority, dhtv_restores_in_domain); the shipped 512 and 1024 plans satisfy the overlap premise and cover all bins (kernel decide on the plan model).",
- note="Partial: DHTV with the euclidean metric and greedy restoration for euclidean/multiply outside the dominance hypothesis are search-only; tie-free masks (1e-9 margin).",
+ note="Partial: DHTV with the euclidean metric and greedy restoration for euclidean/multiply outside the dominance hypothesis are search-only; tie-free masks (1e-9 margin). Link to the EM stage: two-level masks - literally eStep(fit n) of the cACG mixture in the balanced scene, scrambled by an arbitrary per-bin permutation - satisfy the hypotheses of the restoration theorems when 10*T*h <= g (em_posteriors_restored_by_greedy / _by_dhtv).",
  tech="Lean 4 proof (plan arithmetic, loop invariants, functional characterisation of the in-place pass, real analysis for jitter/majority bounds, kernel decide for the shipped plans) + exact correspondence + search")
 man = {
  "version": 1,
